@@ -66,7 +66,7 @@ class Driver(object):
                                                'fallback', 'mgmt.json')))
 
     # ------------------------------------------------------------------
-    def invoke(self, api, op, names, ad):
+    def invoke(self, api, op, names, ad, via=None):
         """Call the real operation so that call site op['op'] is reached."""
         handler, rest = op['op'].split('.', 1)
         meth, k = rest.split('#')
@@ -92,6 +92,12 @@ class Driver(object):
             kwargs['username'] = ['u1', 'u2']
         if op['op'] == 'healthchecks.get#0':
             kwargs.pop('node', None)
+        if via == 'declare_passive':
+            # the same endpoint reached through declare(passive=True)
+            fn = getattr(target, 'declare')
+            kwargs = dict((k2, v2) for k2, v2 in kwargs.items()
+                          if k2 in ('queue', 'exchange', 'virtual_host'))
+            kwargs['passive'] = True
         for p in op['params']:
             if p not in kwargs and p in ('queue', 'exchange', 'username',
                                          'virtual_host', 'connection', 'channel',
@@ -99,7 +105,7 @@ class Driver(object):
                 kwargs[p] = 'dflt'
         return fn(**kwargs), kwargs
 
-    def call_case(self, oi, op, names):
+    def call_case(self, oi, op, names, via=None):
         node_name = names[0] if op['op'] == 'api.top#0' and names else 'n1'
 
         def responder(req):
@@ -111,9 +117,9 @@ class Driver(object):
             return 200, {}
         api, ad = mgmt.make_api(responder)
         cin = 'MCall %d%%nat %s' % (oi, coq_list([coq_bytes(n) for n in names]))
-        meta = dict(kind='call', op=op['op'], names=names)
+        meta = dict(kind='call', op=op['op'], names=names, via=via)
         try:
-            res, kwargs = self.invoke(api, op, names, ad)
+            res, kwargs = self.invoke(api, op, names, ad, via=via)
         except Exception as why:
             meta['raised'] = repr(why)
             return dict(cin=cin, cobs='OFail', meta=meta)
@@ -151,7 +157,8 @@ class Driver(object):
 
     RESPONSES = [('200json', 200, 0), ('200error', 200, 1), ('204empty', 204, 2),
                  ('200text', 200, 3), ('400', 400, 1), ('404', 404, 3),
-                 ('500', 500, 2), ('connfail', None, None), ('timeout', None, None)]
+                 ('500', 500, 2), ('connfail', None, None), ('timeout', None, None),
+                 ('page2-500', 500, 1), ('page2-200error', 200, 1)]
 
     def resp_case(self, oi, op, rk):
         import requests
@@ -169,6 +176,15 @@ class Driver(object):
             return dict(ok=True)
 
         def responder(req):
+            if label.startswith('page2'):
+                # the first page of the listing is fine and announces a second one; the
+                # error comes with that second page
+                q = mgmt.query_of(req)
+                if int(q.get('page', ['1'])[0]) <= 1:
+                    return 200, dict(page=1, page_count=2, page_size=10, total_count=11,
+                                     filtered_count=11, item_count=10,
+                                     items=[dict(name='i%d' % k) for k in range(10)])
+                return status, dict(error='bad', reason='because')
             if status is None:
                 return (requests.ConnectionError('refused') if label == 'connfail'
                         else requests.Timeout('timed out'))
@@ -226,7 +242,13 @@ class Driver(object):
                         names[h] = nm
                         out.append(self.call_case(oi, op, names))
             for rk in self.RESPONSES:
+                if rk[0].startswith('page2') and op['verb'] != 'list':
+                    continue
                 out.append(self.resp_case(oi, op, rk))
+            if op['op'] in ('exchange.get#0', 'queue.get#0'):
+                for r in range(6 if tier == 'quick' else 30):
+                    names = [rnd.choice(NAMES) for _ in range(nh)]
+                    out.append(self.call_case(oi, op, names, via='declare_passive'))
         return out
 
     def replay_cases(self, doc):
@@ -234,7 +256,7 @@ class Driver(object):
         ops = self.table()
         oi = [i for i, o in enumerate(ops) if o['op'] == m['op']][0]
         if m['kind'] == 'call':
-            return [self.call_case(oi, ops[oi], m['names'])]
+            return [self.call_case(oi, ops[oi], m['names'], via=m.get('via'))]
         rk = [r for r in self.RESPONSES if r[0] == m['response']][0]
         return [self.resp_case(oi, ops[oi], rk)]
 
